@@ -334,6 +334,18 @@ theorem C16_group_flags_monotone (s : GS) (ops : List SOp) (j : Nat) (h : isShut
     isShut (runS s ops) j = true ∧ stepS (runS s ops) (.base (.inc j)) = runS s ops :=
   ⟨isShut_runS s ops j h, stepS_inc_stopped _ j (isShut_runS s ops j h)⟩
 
+/-- **A stopped pool only drains.**  From any state reached by the group operations (`runS {} pre`), once `Group.shutdown`
+has called `Shutdown()` on pool `q`, no later operation — in any interleaving with tasks accepted and finished
+elsewhere in the tree, pools and groups created, other shutdowns — increases `q`'s pending counter: with the pool-level
+theorems (every accepted task finishes) the pool runs dry, and by `C16_group_shutdown_wait` the groups above it follow. -/
+theorem C16_group_stopped_pool_drains (pre ops : List SOp) (q : Nat)
+    (hq : isPoolAt (runS {} pre).tree q = true) (hs : isShut (runS {} pre) q = true) :
+    val (runS (runS {} pre) ops).tree q ≤ val (runS {} pre).tree q :=
+  val_runS_stopped _ ops q (inv_runS {} pre inv_nil) hq hs
+
+example : let pre : List SOp := [.base (.newGroup none), .base (.newPool 0), .base (.inc 1), .flag 0, .stop 1]
+    isPoolAt (runS {} pre).tree 1 = true ∧ isShut (runS {} pre) 1 = true ∧ val (runS {} pre).tree 1 = 1 := by decide
+
 example : ∃ s : GS, isShut s 1 = true := ⟨{ tree := [], shut := [false, true] }, by decide⟩
 
 /-- The shutdown window (the `group sdwin` scenario of the harness): root 0, sub-group 1 with pools 2, 3, 4.  After the
